@@ -60,7 +60,8 @@ def run_stage(work, drive, st, seed, out, model_invs, model_props):
             if full:
                 depth += sum(1 for k in uni["keys"] if not k["probe"])   # the history starts with the inserts that fill the tree
             mod = write_mc(work, "s" + tag, uni, emit=False, max_depth=depth, ramp=st.kw.get("ramp", True),
-                           invariants=st.kw.get("invs", model_invs), props=[], start_full=full)
+                           invariants=st.kw.get("invs", model_invs), props=[], start_full=full, protect=st.kw.get("protect", True),
+                           fillcap=st.kw.get("fillcap", 0), floor=st.kw.get("floor", 0))
             edges = work.path("hist-%s.ndjson" % tag)
             r = run_model(work, mod, edges, simulate=(num, depth), seed=seed, timeout=st.kw.get("timeout", 3000))
         run = {"stage": st.label(), "states": r.states, "transitions": r.transitions, "emitted": r.edges,
